@@ -43,6 +43,22 @@ def inventory(repo):
                 cur = name
         kind = 'try' if text.rstrip().endswith('?') else re.match(r'\s*(\w+(?:::\w+)*|if)', text).group(1)
         sites.append(dict(fn=cur, kind=kind, stmt=re.sub(r'\s+', ' ', text.strip())[:160]))
+    # the text of every function of main.rs (comments and white space apart): the run-level models (Wr, Run, Inst, Fs) were
+    # written against exactly this text; any edit — a moved call, a new helper — is an obligation to look again
+    import hashlib
+    for pos, name in fns_at:
+        i = src.find('{', pos)
+        if i < 0:
+            continue
+        depth, j = 0, i
+        while j < len(src):
+            depth += src[j] == '{'
+            depth -= src[j] == '}'
+            j += 1
+            if depth == 0:
+                break
+        body = re.sub(r'\s+', ' ', src[pos:j]).strip()
+        sites.append(dict(fn=name, kind='body', stmt=hashlib.sha1(body.encode()).hexdigest()[:16]))
     seen = {}
     for s in sites:
         k = (s['fn'], s['kind'], s['stmt'])
